@@ -226,8 +226,14 @@ def write_evidence(pid, tier, seed, coverage, wall, violations, assumptions, ext
         ev.update(extra)
     json.dump(ev, open(os.path.join(EVID, pid + ".json"), "w"), indent=1)
 
+_saved = [0]
+
 def save_replay(pid, payload):
+    """Writes a replay file; at most 12 per run (the rest would be more of the same)."""
     os.makedirs(REPLAY, exist_ok=True)
+    _saved[0] += 1
+    if _saved[0] > 12:
+        return os.path.join(REPLAY, "(not written: more than 12 violations in this run)")
     blob = json.dumps(payload, sort_keys=True)
     name = "%s-%s.json" % (pid, hashlib.sha256(blob.encode()).hexdigest()[:12])
     path = os.path.join(REPLAY, name)
